@@ -132,6 +132,7 @@ func c01ConcRun(idx int, seed uint64) {
 				atomic.StoreInt32(&inconcl, 1)
 				return
 			}
+			var mine []int // indexes of this publisher's entries in pcalls
 			for m := 1; m <= nmsg; m++ {
 				id := uint16(m)
 				call := now()
@@ -141,14 +142,34 @@ func c01ConcRun(idx int, seed uint64) {
 					atomic.StoreInt32(&inconcl, 1)
 					return
 				}
+				// The broker writes the PUBACK before it fans the message out, so the publish may take
+				// effect after its PUBACK was read. Fan-out is synchronous in the publisher's processor:
+				// it is certainly over when the NEXT packet of this publisher has been answered. The
+				// return stamp of publish m is therefore taken when publish m+1 (or the final PINGREQ)
+				// is acknowledged.
 				ret := now()
 				pmu.Lock()
-				pcalls = append(pcalls, pubCall{p, uint32(m), call, ret})
+				if n := len(mine); n > 0 {
+					pcalls[mine[n-1]].ret = ret
+				}
+				mine = append(mine, len(pcalls))
+				pcalls = append(pcalls, pubCall{p, uint32(m), call, 0})
 				pmu.Unlock()
 				if pr.Intn(3) == 0 {
 					time.Sleep(time.Duration(pr.Intn(200)) * time.Microsecond)
 				}
 			}
+			c.SendPacket(&rc.Packet{Type: rc.PINGREQ})
+			if c.WaitFor(func(l []rawclient.Event, closed bool) bool { return countType(l, rc.PINGRESP) >= 1 }, 20*time.Second) != nil {
+				atomic.StoreInt32(&inconcl, 1)
+				return
+			}
+			ret := now()
+			pmu.Lock()
+			if n := len(mine); n > 0 {
+				pcalls[mine[n-1]].ret = ret
+			}
+			pmu.Unlock()
 		}(p)
 	}
 	// subscribers
@@ -179,7 +200,9 @@ func c01ConcRun(idx int, seed uint64) {
 				c.SendPacket(pk)
 				nack++
 				want := nack
-				if c.WaitFor(func(l []rawclient.Event, closed bool) bool { return countType(l, rc.SUBACK)+countType(l, rc.UNSUBACK) >= want }, 20*time.Second) != nil {
+				if c.WaitFor(func(l []rawclient.Event, closed bool) bool {
+					return countType(l, rc.SUBACK)+countType(l, rc.UNSUBACK) >= want
+				}, 20*time.Second) != nil {
 					atomic.StoreInt32(&inconcl, 1)
 					return
 				}
